@@ -804,15 +804,13 @@ class RewriteRuleSet:
                     if producer is not None and any(producer is n for n in new_nodes):
                         continue
                     if old_value.is_graph_output():
-                        if (
-                            producer is None
-                            or new_value.is_graph_input()
-                            or new_value.is_initializer()
-                            or new_value.is_graph_output()
-                        ):
-                            identity = ir.node("Identity", inputs=[new_value])
-                            new_nodes.append(identity)
-                            new_outputs[i] = identity.outputs[0]
+                        # The forwarded value keeps its own name (it may be a graph input, an
+                        # initializer, another graph output, the output of a node that is not
+                        # part of the match, or a value of an enclosing graph): the output of
+                        # the graph or subgraph is a copy of it.
+                        identity = ir.node("Identity", inputs=[new_value])
+                        new_nodes.append(identity)
+                        new_outputs[i] = identity.outputs[0]
                     else:
                         forwarded_values.append(
                             (
